@@ -126,24 +126,23 @@ End Highlight.
 
 (* ---------- C11: invalid zones ---------- *)
 
+(* the zone argument as the code reads it (fix d5a5dce): the whole literal text *)
 Definition zone_valid (z : list piece) : bool :=
-  match z with
-  | [PText t] => str_eqb t (LIT "utc") || str_eqb t (LIT "local")
-  | _ => false
+  match literal_arg (LIT "invalid timezone") z with
+  | inl t => str_eqb t (LIT "utc") || str_eqb t (LIT "local")
+  | inr _ => false
   end.
 
 Theorem invalid_zone_is_error : forall ok fmt z more prm,
-  zone_valid z = false -> tz_arg_class z = false ->
+  zone_valid z = false ->
   exists m, compile_date ok (fmt :: z :: more) prm = CError m.
 Proof.
-  intros ok fmt z more prm Hv Hc. unfold compile_date.
+  intros ok fmt z more prm Hv. unfold compile_date.
   destruct (Nat.ltb 2 (length (fmt :: z :: more))); [eauto|].
   destruct (negb (ok (date_format_of fmt))); [eauto|].
-  cbn [nth_error].
-  destruct z as [|[t| |] r]; eauto.
-  destruct (str_eqb t (LIT "utc")) eqn:E1; [|destruct (str_eqb t (LIT "local")) eqn:E2; [|eauto]].
-  - exfalso. destruct r; cbn in Hv, Hc; rewrite E1 in *; discriminate.
-  - exfalso. destruct r; cbn in Hv, Hc; rewrite E1, E2 in *; discriminate.
+  cbn [nth_error]. unfold zone_valid in Hv.
+  destruct (literal_arg (LIT "invalid timezone") z) as [t|]; [|eauto].
+  apply orb_false_iff in Hv. destruct Hv as [E1 E2]. rewrite E1, E2. eauto.
 Qed.
 
 (* ---------- witnesses of the open findings ---------- *)
@@ -168,30 +167,31 @@ Proof.
   eexists; split; [vm_compute; reflexivity|]. vm_compute. discriminate.
 Qed.
 
-(* F-C09-mdc-first-piece: `{X(a{{b)}` *)
+(* fixed F-C09-mdc-first-piece (c13258d): `{X(a{{b)}` is well-formed for the positive
+   theorem and renders the value of key `a{b` *)
 Definition w_mdc : list ast :=
   [AFmt (LIT "X") [[ALit (LIT "a"); AEsc 123 Doubled; ALit (LIT "b")]] no_spec].
 
-Theorem mdc_first_piece_refuted :
+Theorem mdc_whole_argument :
   wf_seq a_alpha a_alnum true false w_mdc = true /\
-  forallb (sem_ok_mod_class w_ok) w_mdc = true /\
-  existsb in_known_class w_mdc = true /\
+  forallb (sem_ok w_ok) w_mdc = true /\
   exists cs, construct a_alpha a_alnum w_ok (print_seq w_mdc) = Ok cs
-             /\ encode w_ok w_ts w_env cs <> meaning_seq w_ts w_env w_mdc.
+             /\ encode w_ok w_ts w_env cs = chars (LIT "right")
+             /\ meaning_seq w_ts w_env w_mdc = chars (LIT "right").
 Proof.
-  split; [reflexivity|]. split; [reflexivity|]. split; [reflexivity|].
-  eexists; split; [vm_compute; reflexivity|]. vm_compute. discriminate.
+  split; [reflexivity|]. split; [reflexivity|].
+  eexists; split; [vm_compute; reflexivity|]. split; vm_compute; reflexivity.
 Qed.
 
-(* F-C11-tz-first-piece: `{d(%Y)(utc{{x)}` compiles to a UTC date chunk *)
-Theorem tz_first_piece_refuted :
-  exists s ps,
-    parse a_alpha a_alnum s = Ok ps /\ existsb (tz_class w_ok) ps = true /\
-    construct a_alpha a_alnum w_ok s = Ok [CLeaf (KTime (LIT "%Y") Utc) default_params].
-Proof.
-  exists (LIT "{d(%Y)(utc{{x)}"). eexists. split; [vm_compute; reflexivity|].
-  split; vm_compute; reflexivity.
-Qed.
+(* fixed F-C11-tz-first-piece (d5a5dce): `{d(%Y)(utc{{x)}` reports the invalid zone `utc{x`,
+   while the two valid zones still work *)
+Theorem tz_whole_argument :
+  construct a_alpha a_alnum w_ok (LIT "{d(%Y)(utc{{x)}")
+    = Ok [CError (LIT "invalid timezone `utc{x`")]
+  /\ construct a_alpha a_alnum w_ok (LIT "{d(%Y)(utc)}|{d(%Y)(local)}")
+     = Ok [CLeaf (KTime (LIT "%Y") Utc) default_params; CText (LIT "|");
+           CLeaf (KTime (LIT "%Y") Local) default_params].
+Proof. split; vm_compute; reflexivity. Qed.
 
 (* a small well-formed pattern used in the examples: `{l} {m:>7}` *)
 Definition ex_prefix_seq : list ast :=
